@@ -150,8 +150,7 @@ def check(case, rec: Rec) -> None:
                 for f in za[k]:
                     if za[k][f] != zb[k][f]:
                         raise Violation("note-field:" + f, f"{hist}\nnote {k}: {f} incremental {za[k][f]!r}, rebuilt {zb[k][f]!r}")
-            if a["blocks"] != b["blocks"]:
-                raise Violation("block-partition", f"{hist}\n{a['blocks']} vs {b['blocks']}")
+            # (how notes are grouped into blocks is not observable by any query: not compared here)
             if env.read_tree(fresh) != final:
                 ch = [k for k, v in env.read_tree(fresh).items() if final.get(k) != v]
                 raise Violation("rebuild-changed-files", f"{hist}\nrebuild rewrote {ch}")
